@@ -41,7 +41,7 @@ SET_METHODS = {"union", "intersection", "difference", "symmetric_difference", "c
 # fields documented / normalised as unordered containers
 # kind tables are filled in the order inference visits statements (C14 guarantees the
 # mapping, not its insertion order)
-UNORDERED_FIELDS = {"depends_on", "statements", "global_table", "per_phase_table"}
+UNORDERED_FIELDS = {"depends_on", "statements", "global_table", "per_phase_table", "phases"}
 
 # tables of tables: the inner tables are filled in visiting order as well
 NESTED_UNORDERED_FIELDS = {"per_phase_table"}
@@ -289,8 +289,9 @@ class Taint:
                     return False
                 if fn.id in SEQ_FUNCS:
                     return any(self.is_tainted(a, f, tainted) for a in e.args)
-                if fn.id == "str":
-                    return False
+                if fn.id in ("str", "repr"):
+                    # the text of a container lists its elements in iteration order
+                    return any(self.is_tainted(a, f, tainted) for a in e.args)
             if isinstance(fn, ast.Attribute):
                 if fn.attr in SET_METHODS or fn.attr in ("keys", "values", "items"):
                     return self.is_tainted(fn.value, f, tainted)
